@@ -1,6 +1,6 @@
 SPECIFICATION Spec
 CONSTANTS
-  MaxNodes = 4
+  MaxNodes = 3
   MinEmit = 1
   Depths = {99, 1}
   Devs = {1, 2}
@@ -8,4 +8,6 @@ CONSTANTS
   MaxRoots = 2
   OptMode = "relevant"
   ExactSize = 0
+  NeedDev2 = FALSE
+  OptSample = 0
 INVARIANTS ModelOK Emitted
